@@ -532,6 +532,9 @@ def find_const(rel, name):
     src = strip_comments(open(os.path.join(REPO, rel)).read())
     ms = re.findall(r"\bconst\s+" + name + r"\s*:\s*usize\s*=\s*([^;]+);", src)
     if len(ms) != 1:
+        # A renamed constant that still carries the name (`DETECT_SIZE_CUTOFF`).
+        ms = re.findall(r"\bconst\s+\w*" + name + r"\w*\s*:\s*usize\s*=\s*([^;]+);", src)
+    if len(ms) != 1:
         raise GenError(f"{rel}: expected exactly one `const {name}: usize = ...;`, found {len(ms)}")
     return eval_const(ms[0], f"{rel}: {name}")
 
